@@ -49,6 +49,19 @@ def _construct(case):
     elif k == "tri":
         g = pp.StructuredTriangleGrid(np.array(case["dims"]))
         lo, hi = [0.0, 0.0], [float(n) for n in case["dims"]]
+    elif k == "two_islands":
+        # cells 0 and 2 of a 3 x 1 tensor grid; every face of the second cell gets its node
+        # order reversed: each cell is still a consistent loop (orientation check 1/3 passes) but
+        # the two islands have opposite orientation (checks 2/3 or 3/3 must catch it)
+        xs = np.array(case["xs"], dtype=float)
+        base = pp.TensorGrid(xs, np.array([0.0, case["hy"]]))
+        base.compute_geometry()
+        g, _, _ = pp.partition.extract_subgrid(base, np.array([0, 2]))
+        cfc = g.cell_faces.tocsc()
+        for f in cfc.indices[cfc.indptr[1]:cfc.indptr[2]]:
+            a, b = g.face_nodes.indptr[f], g.face_nodes.indptr[f + 1]
+            g.face_nodes.indices[a:b] = g.face_nodes.indices[a:b][::-1].copy()
+        return g, None, None
     elif k == "tet":
         g = pp.StructuredTetrahedralGrid(np.array(case["dims"]))
         lo, hi = [0.0] * 3, [float(n) for n in case["dims"]]
@@ -59,6 +72,10 @@ def _construct(case):
 
 def build(case):
     g, rlo, rhi = _construct(case)
+    if rlo is None:     # hand-made grid: no requested box; measure given by the case
+        for d, e in enumerate(case.get("scale_exp", [])[:g.dim]):
+            g.nodes[d] *= 2.0 ** e
+        return g, F(case["measure"]) * F(2) ** sum(case.get("scale_exp", [0, 0])[:g.dim]), None
     nd = g.dim
     span = [[float(g.nodes[d].min()) for d in range(nd)], [float(g.nodes[d].max()) for d in range(nd)]]
     measure = F(1)
@@ -157,8 +174,7 @@ class C19(Prop):
         "NOT proved: the 3-D centroid identity; anything about twisted (non-planar) 3-D faces beyond "
         "normals-sum-zero (|sub_normal| is irrational there; the model returns G3NonPlanar); on the "
         "legacy 2-D branch: non-star-shaped cells, and that the flip decisions of the two sides of "
-        "a face agree (true for convex cells; oracle only); the check-3/3 path (negative volume "
-        "with consistent local orientation) is modelled but not reached by the generator; "
+        "a face agree (true for convex cells; oracle only); "
         "1-D/2-D grids embedded in tilted lines / planes (plane normal by normalisation needs sqrt; "
         "axis-aligned embeddings are tied); floating-point rounding; theorems are over Q (polynomial "
         "identities, valid in any field, but stated for rationals).  2-D orientation check 2/3 "
@@ -177,7 +193,9 @@ class C19(Prop):
             "StructuredTetrahedralGrid; 3-D boxes tapered to frusta (planar faces, no central symmetry); "
             "node perturbations by dyadic offsets (< 1/4 of the smallest "
             "spacing) of interior nodes (domain measure preserved) or of all nodes; 2-D stream with "
-            "reversed node order on some faces (orientation check fails -> legacy branch); 40% of the "
+            "reversed node order on some faces (orientation check fails -> legacy branch); two-island "
+            "grids whose islands have opposite orientation (orientation checks 2/3 and 3/3); every "
+            "geometry is computed twice (idempotence); 40% of the "
             "1-D/2-D grids embedded by an axis permutation with dyadic out-of-plane offsets (up to 256); non-trivial = "
             "perturbed grid or grid with > 1 cell; distinct by (case, output)")
     trusted = ["float -> exact rational conversion of the implementation's arrays; tolerance band "
@@ -219,7 +237,7 @@ class C19(Prop):
                 case = {"kind": "tensor", "coords": [xs]}
             elif r < 0.40:
                 case = cart([rng.randint(1, m + 1), rng.randint(1, m)])
-            elif r < 0.52:
+            elif r < 0.47:
                 cs = []
                 for _ in range(2):
                     xs = [float(rng.randint(-4, 4))]
@@ -227,6 +245,13 @@ class C19(Prop):
                         xs.append(xs[-1] + rng.choice(hs))
                     cs.append(xs)
                 case = {"kind": "tensor", "coords": cs}
+            elif r < 0.56:
+                w = [rng.choice(hs) for _ in range(3)]
+                if rng.random() < 0.25:
+                    w[2] = w[0]      # equal islands: the plane-normal sum is exactly zero (check 2/3)
+                hy = rng.choice(hs)
+                case = {"kind": "two_islands", "xs": [0.0, w[0], w[0] + w[1], w[0] + w[1] + w[2]],
+                        "hy": hy, "measure": (w[0] + w[2]) * hy, "coords": [[0, 1], [0, 1]]}
             elif r < 0.68:
                 case = {"kind": "tri", "dims": [rng.randint(1, m), rng.randint(1, m)]}
             elif r < 0.82:
@@ -243,6 +268,8 @@ class C19(Prop):
                 case = {"kind": "tet", "dims": [rng.randint(1, 2), rng.randint(1, 2), rng.randint(1, 2)]}
             nd = len(case.get("dims", case.get("coords", [])))
             case["perturb"] = rng.choice(["none", "interior", "interior", "all"])
+            if case["kind"] == "two_islands":
+                case["perturb"] = "none"
             if case["kind"] != "tet" and nd == 3 and rng.random() < 0.6:
                 case["perturb"] = "none"
                 case["taper"] = True
@@ -273,7 +300,7 @@ class C19(Prop):
             else:
                 e = rng.randint(-10, 10)
                 case["scale_exp"] = [e - rng.randint(0, 10) for _ in range(3)]
-            if nd < 3 and rng.random() < 0.4:
+            if nd < 3 and case["kind"] != "two_islands" and rng.random() < 0.4:
                 perm = [0, 1, 2]
                 rng.shuffle(perm)
                 case["embed"] = {"perm": perm,
@@ -287,6 +314,15 @@ class C19(Prop):
             warnings.simplefilter("always")
             g.compute_geometry()
         fallback = any("Orientations are inconsistent" in str(x.message) for x in w)
+        # a second call recomputes the same geometry (no state carried over, also after the
+        # in-place normal flips of the legacy branch)
+        first = [np.array(a, copy=True) for a in (g.face_areas, g.face_centers, g.face_normals,
+                                                  g.cell_volumes, g.cell_centers)]
+        with warnings.catch_warnings():
+            warnings.simplefilter("ignore")
+            g.compute_geometry()
+        self.recompute_same = all(np.array_equal(a, b, equal_nan=True) for a, b in zip(
+            first, (g.face_areas, g.face_centers, g.face_normals, g.cell_volumes, g.cell_centers)))
         cf = sps.coo_matrix(g.cell_faces)
         out = {
             "dim": int(g.dim), "nc": int(g.num_cells), "nf": int(g.num_faces),
@@ -295,7 +331,7 @@ class C19(Prop):
             "fn_indptr": [int(x) for x in g.face_nodes.indptr],
             "cf": [[int(r), int(c), int(v)] for r, c, v in zip(cf.row, cf.col, cf.data)],
             "cf_indices": [int(x) for x in g.cell_faces.indices],
-            "fallback": bool(fallback),
+            "fallback": bool(fallback), "recompute_same": bool(self.recompute_same),
             "measure": None if measure is None else str(F(measure)), "req": req,
             "areas": g.face_areas.tolist(), "fc": g.face_centers.T.tolist(),
             "fnrm": g.face_normals.T.tolist(), "vol": g.cell_volumes.tolist(),
@@ -320,6 +356,8 @@ class C19(Prop):
         """All comparisons are relative to the magnitude of the terms of the identity at hand
         (|sum - rhs| <= 1e-9 (sum |terms| + |rhs|)), so every grid is judged at its own scale."""
         dim, nc, nf = res["dim"], res["nc"], res["nf"]
+        if not res.get("recompute_same", True):
+            return "a second compute_geometry() call returned different arrays"
         for name in ("vol", "areas", "cc", "fc", "fnrm"):
             flat = np.asarray(res[name], dtype=float).ravel()
             if not np.all(np.isfinite(flat)):
@@ -340,7 +378,9 @@ class C19(Prop):
 
         # the grid covers the REQUESTED domain (checked on the nodes as constructed)
         req = res["req"]
-        if req["nd_req"] == dim:
+        if req is None:
+            pass
+        elif req["nd_req"] == dim:
             for d in range(dim):
                 if F(req["span"][0][d]) != F(req["lo"][d]) or F(req["span"][1][d]) != F(req["hi"][d]):
                     return (f"axis {d}: nodes span [{req['span'][0][d]}, {req['span'][1][d]}] but the "
